@@ -70,6 +70,13 @@ example : PF_CMD_SKIP = PF_CMD_PREFIX.length := by decide
 example : PF_CMD_REPLIES = ["QUERY_PF_NAT_SUCCESS %s,%r\n", "QUERY_PF_NAT_FAILURE %s\n"] := by decide
 example : PF_QUERY_NAT_PARAMS = ["self", "family", "proto", "src_ip", "src_port", "dst_ip", "dst_port"] := by decide
 
+-- onaccept_udp: the association table holds (channel, deadline) only; the destination header is
+-- built per datagram (`UDP_HDR_ARGS` above), UDP_OPEN carries the family only
+example : UDP_TABLE_STORES = ["udp_by_src[srcip] = (chan, now + 30)"] := by decide
+example : UDP_TABLE_LOADS = ["chan, _ = udp_by_src[srcip]"] := by decide
+example : UDP_OPEN_ARGS = ["b'%d' % listener.family"] := by decide
+example : UDP_EXPIRE_TEST = ["timeout < now", "timeout < now"] := by decide
+
 -- pf's `firewall_command` writes exactly one reply line per QUERY_PF_NAT: one write in the `try`
 -- body, one in the `except` handler, no loop (`sessStep (.query _)` appends exactly one line)
 example : PF_CMD_WRITES = ["try:sys.stdout.write('QUERY_PF_NAT_SUCCESS %s,%r\\n' % dst)",
